@@ -126,8 +126,15 @@ func runC07(t *testing.T, c *choice.Stream, r *Result, opt RunOpt) {
 		}
 		stream = w.B
 		desc["cols"] = colNames(cols)
+		info := c.Bool("skip.colinfo", 1, 2)
+		desc["target"] = map[bool]string{false: "nil", true: "ColInfoInput"}[info]
 		dec = func(src *simio.FaultyReader) error {
 			var blk proto.Block
+			if info {
+				// what Do binds to learn the columns of an INSERT
+				var ci proto.ColInfoInput
+				return blk.DecodeBlock(proto.NewReader(src), rev, &ci)
+			}
 			return blk.DecodeBlock(proto.NewReader(src), rev, nil)
 		}
 	case "block", "block-auto":
